@@ -33,7 +33,7 @@ def handle (j : Json) : Json :=
   let a := fld j "args"
   let quirks := getStrs j "quirks"
   let q (s : String) : Bool := quirks.contains s
-  if op == "survive" then Json.str "ok" else
+  if op == "survive" || op == "survivechain" then Json.str "ok" else
   -- C16: the model's prediction for independent calls (theorem interleaving_equals_sequential,
   -- hypothesis discharged by the regenerated fact sharedWrites = []): no race, no fatal error, same results
   if op == "race" then Json.mkObj [("races", false), ("fatal", false), ("mismatch", false), ("hang", false)] else
